@@ -308,6 +308,27 @@ Section RF.
     rf_return : option raw
   }.
 
+  (* from reconcile_krm_resource on: t1 = the sites evaluated so far *)
+  Definition rf_after_locals (f : rfn) (loc : string) (t1 : list site)
+    : res (option (uoutcome vtree)) * list site * list call :=
+    let '(r, calls) := krm (rf_locals f) in
+    match r with
+    | UOut o => (Done (Some (UOut o)), t1 ++ [SResource], calls)
+    | UVal _ =>
+        let t2 := t1 ++ [SResource] ++ trace_of SPost (rf_post f) in
+        match evaluate_predicates_opt (rf_post f) (sloc loc "postconditions") with
+        | Raised e => (Raised e, t2, calls)
+        | Done (Some o) => (Done (Some (UOut o)), t2, calls)
+        | Done None =>
+            (match evaluate (rf_return f) (sloc loc "return") with
+             | Raised e => Raised e
+             | Done ENone => Done None
+             | Done (EVal v) => Done (Some (UVal v))
+             | Done (EFail o) => Done (Some (UOut o))
+             end, t2 ++ trace_of SReturn (rf_return f), calls)
+        end
+    end.
+
   (* outcome, sites evaluated by reconcile_resource_function itself, API calls *)
   Definition reconcile_rf (f : rfn) (loc : string)
     : res (option (uoutcome vtree)) * list site * list call :=
@@ -318,35 +339,12 @@ Section RF.
     | Done None =>
         let t1 := t0 ++ trace_of SLocals (rf_locals f) in
         let bad := PermFail (Some msg_bad_locals) (Some (sloc loc "locals")) in
-        match
-          match evaluate (rf_locals f) (sloc loc "locals") with
-          | Raised e => Raised e
-          | Done (EFail o) => Done (Some o)
-          | Done ENone | Done (EVal VNull) => Done None
-          | Done (EVal (VMap _)) => Done None
-          | Done (EVal _) => Done (Some bad)
-          end
-        with
+        match evaluate (rf_locals f) (sloc loc "locals") with
         | Raised e => (Raised e, t1, [])
-        | Done (Some o) => (Done (Some (UOut o)), t1, [])
-        | Done None =>
-            let '(r, calls) := krm (rf_locals f) in
-            match r with
-            | UOut o => (Done (Some (UOut o)), t1 ++ [SResource], calls)
-            | UVal _ =>
-                let t2 := t1 ++ [SResource] ++ trace_of SPost (rf_post f) in
-                match evaluate_predicates_opt (rf_post f) (sloc loc "postconditions") with
-                | Raised e => (Raised e, t2, calls)
-                | Done (Some o) => (Done (Some (UOut o)), t2, calls)
-                | Done None =>
-                    (match evaluate (rf_return f) (sloc loc "return") with
-                     | Raised e => Raised e
-                     | Done ENone => Done None
-                     | Done (EVal v) => Done (Some (UVal v))
-                     | Done (EFail o) => Done (Some (UOut o))
-                     end, t2 ++ trace_of SReturn (rf_return f), calls)
-                end
-            end
+        | Done (EFail o) => (Done (Some (UOut o)), t1, [])
+        | Done ENone | Done (EVal VNull) => rf_after_locals f loc t1
+        | Done (EVal (VMap _)) => rf_after_locals f loc t1
+        | Done (EVal _) => (Done (Some (UOut bad)), t1, [])
         end
     end.
 End RF.
